@@ -495,7 +495,14 @@ def run(ck):
     concrete, corr, hyp = [], [], []          # reported in this order: failing inputs first (the list of replays is capped)
     for _ in range(ncase):
         case = gen_case(rng, maxchain)
-        line, steps, fails, ks = run_case(case)
+        try:
+            line, steps, fails, ks = run_case(case)
+        except Exception as e:  # noqa: BLE001  the implementation raised on a valid structure / lattice chain
+            ck.coverage["evaluations"] += 1
+            ck.fail("exception:%s" % type(e).__name__,
+                    "placing a valid structure through valid lattices raised %r (lattices %r)" % (e, [s_.get("par") for s_ in case["lats"]]),
+                    {"kind": "raise", "case": case, "observed": repr(e)})
+            continue
         cases.append(case)
         lines.append(line)
         recs.append((steps, fails, ks))
@@ -614,6 +621,14 @@ def replay(path):
             dis = "model output unusable" if (mod is None or len(mod) != 1) else compare(rows, mod[0], K * K)
             print("model disagreement:", dis)
             return 1 if dis else 0
+        return 0
+    if r.get("kind") == "raise":
+        try:
+            run_case(r["case"])
+        except Exception as e:  # noqa: BLE001
+            print("raises:", repr(e))
+            return 1
+        print("no exception")
         return 0
     if r.get("kind") in ("place", "correspondence"):
         case = r["case"]
